@@ -113,7 +113,12 @@ func (c10) Gen(seed uint64, tier string) *Scenario {
 		}
 		t := c10Table{Name: fmt.Sprintf("t%d.%s", i, ext), Format: f, Rows: rows}
 		m.Tables = append(m.Tables, t)
-		sc.Files = append(sc.Files, FileSpec{Name: t.Name, Content: genTableContent(f, rows, r)})
+		if r.Bool(0.12) {
+			// the table path is a symbolic link to the data file
+			sc.Files = append(sc.Files, FileSpec{Name: "store/" + t.Name, Content: genTableContent(f, rows, r)}, FileSpec{Name: t.Name, LinkTo: "store/" + t.Name})
+		} else {
+			sc.Files = append(sc.Files, FileSpec{Name: t.Name, Content: genTableContent(f, rows, r)})
+		}
 	}
 	// an untouched bystander
 	sc.Files = append(sc.Files, FileSpec{Name: "bystander.csv", Content: "a,b\n1,2\n"})
@@ -360,6 +365,56 @@ func (c10) Eval(t *testing.T, c *Case, dec func(int) *Decider) *Outcome {
 			}
 		}
 	}
+	// syscall-level crash enumeration of the REAL binary (independent of the hooks):
+	// strace kills the process on entry to the N-th rename / unlink / ftruncate /
+	// write / copy_file_range ... for N = 1, 2, ... until it survives
+	if bin := os.Getenv("VERIF_CSVQ_BIN"); bin != "" && sc.Procs[0].CPU == 1 && len(o.Violations) == 0 && straceOK() {
+		p := 0.03
+		if c.Tier == "thorough" {
+			p = 0.12
+		}
+		if Sub(c.Seed, "strace").Bool(p) {
+			runs, kills := 0, 0
+			for _, class := range straceClasses {
+				for n := 1; n <= 40 && runs < 90; n++ {
+					dir, killed, err := straceCrash(bin, sc, class, n)
+					runs++
+					o.RealProc++
+					if err != nil {
+						o.Infra = append(o.Infra, "strace tier: "+err.Error())
+						break
+					}
+					if !killed {
+						break
+					}
+					kills++
+					// every pre-existing table must hold one of its committed versions
+					for name := range pre {
+						f, exists := dir[name]
+						if !exists {
+							o.viol(prop, "old-or-new", "real-syscall-crash:table-missing", fmt.Sprintf("REAL csvq killed on entry to %s #%d: table %s does not exist (directory: %s)", class, n, name, dir.String()))
+							continue
+						}
+						ok := false
+						for _, v := range co.versions {
+							if v[name].Data == f.Data {
+								ok = true
+							}
+						}
+						if !ok {
+							kind := "mixed-or-truncated"
+							if len(f.Data) == 0 {
+								kind = "empty"
+							}
+							o.viol(prop, "old-or-new", "real-syscall-crash:table-"+kind, fmt.Sprintf("REAL csvq killed on entry to %s #%d: table %s holds %d bytes that are none of its committed versions", class, n, name, len(f.Data)))
+						}
+					}
+				}
+			}
+			o.Stats.Probes = addProbe(o.Stats.Probes, "real-syscall-crash-points", kills)
+			o.Stats.probe("real-syscall-crash-scenarios")
+		}
+	}
 	pl := make([]string, 0, len(points))
 	for p := range points {
 		pl = append(pl, p)
@@ -423,4 +478,55 @@ func realCrash(bin string, sc *Scenario, point string, nth int) (DirState, error
 		return nil, fmt.Errorf("real process timed out")
 	}
 	return SnapshotDir(dir), nil
+}
+
+var straceClasses = []string{"rename,renameat,renameat2", "unlink,unlinkat", "ftruncate", "write,pwrite64", "copy_file_range,sendfile", "link,linkat,symlink,symlinkat"}
+
+var straceState int // 0 unknown, 1 usable, 2 not usable
+
+// straceOK reports whether strace can trace and inject in this environment.
+func straceOK() bool {
+	if straceState == 0 {
+		straceState = 2
+		if path, err := exec.LookPath("strace"); err == nil {
+			cmd := exec.Command(path, "-f", "-o", "/dev/null", "-e", "trace=getpid", "-e", "inject=getpid:signal=SIGKILL:when=60000", "/bin/true")
+			if err := cmd.Run(); err == nil {
+				straceState = 1
+			}
+		}
+	}
+	return straceState == 1
+}
+
+// straceCrash runs the scenario in the real binary and kills it on entry to the
+// n-th system call of the class. It returns the directory afterwards and
+// whether the process was killed.
+func straceCrash(bin string, sc *Scenario, class string, n int) (DirState, bool, error) {
+	setupBase()
+	dir, err := os.MkdirTemp(BaseDir, "strace-")
+	if err != nil {
+		return nil, false, err
+	}
+	defer os.RemoveAll(dir)
+	if err := writeFiles(dir, sc.Files); err != nil {
+		return nil, false, err
+	}
+	args := []string{"-f", "-o", "/dev/null", "-e", "trace=" + class, "-e", fmt.Sprintf("inject=%s:signal=SIGKILL:when=%d", class, n),
+		bin, "--repository", dir, "--quiet", "--cpu", "1", "--format", "CSV", sc.Procs[0].Program}
+	cmd := exec.Command("strace", args...)
+	cmd.Dir = filepath.Join(BaseDir, "cwd")
+	cmd.Env = append(os.Environ(), "GOMAXPROCS=1")
+	done := make(chan error, 1)
+	if err := cmd.Start(); err != nil {
+		return nil, false, err
+	}
+	go func() { done <- cmd.Wait() }()
+	select {
+	case err := <-done:
+		killed := err != nil
+		return SnapshotDir(dir), killed, nil
+	case <-time.After(60 * time.Second):
+		_ = cmd.Process.Kill()
+		return nil, false, fmt.Errorf("strace run did not end within 60 s")
+	}
 }
